@@ -464,3 +464,4 @@ PROP = C11()
 
 PROP.rule += (" Strata added while closing seeded changes (DESIGN section 10): "
               'bare header lines, multi-period units, curve counts 7..36, comma/tab spacers, DLM COMMA/TAB inputs with blank-holding text cells.')
+PROP.rule += ' Round 8: LAS 1.0 inputs.'
